@@ -67,7 +67,7 @@ func runC01(r *core.Run) {
 		"non-trivial = >= 2 goroutines or a nested aggregate or a line > 16 KiB; plus live-runtime rounds (see live_*)")
 	r.Assume("the generator's reading of the runtime traceback format and of the linker's PathToPrefix escaping",
 		"64-bit host (pointer ceiling 2^63-1)")
-	n := r.N(3000, 120000)
+	n := r.N(25000, 250000)
 	maxG := r.N(8, 120)
 	nf := len(gen.AllFormats())
 	core.Parallel(n, workers(), func(i int) {
@@ -119,6 +119,9 @@ func runC01(r *core.Run) {
 		}
 	})
 	liveRounds(r, r.N(3, 30))
+	if !r.Quick() {
+		liveOtherToolchain(r, 1000, 30)
+	}
 }
 
 func replayC01(r *core.Run, kind string, raw json.RawMessage) {
